@@ -426,6 +426,9 @@ def c11(ctx):
         consts = {'Keys': '{<<97>>, <<98>>}', 'Leaves': '{VNull, VNum(<<49>>), VBool(TRUE)}'}
     r = ctx.mc(f'conv_{ctx.tier}', 'MC_Conv', consts, {'Depth': 2, 'Width': 2}, ['Dump', 'ErrInRange'], spec='CSpec')
     ctx.replay(files + [r['out']], ['C11.'])
+    trace, s = ctx.record('record-nav', 'nav.ndjson', ['--n', 200 if ctx.quick else 4000])
+    reasons_trace(ctx, 'nav', 'TraceNav', trace, lambda ev, why: 'C11.trace_' + why,
+                  lambda ev, why: f'recorded navigation of a generated document differs from CodeMapNav ({why})', rec_summary=s)
     ctx.extra['rule'] = ('S->I: every accepted document of the structure / token / nesting trees with its navigation expectations (pre-order '
                          'fragments, offsets of every array item, entry, key and value, lookups for every present, duplicated and absent key, '
                          'get_fragment for 0..n+2); every small document x 15 type shapes for the conversions')
